@@ -14,24 +14,9 @@ NOTE = ("Trusted: Coq 8.16.1 kernel (coqc; coqchk re-check in the thorough tier)
         "theorems are in exact arithmetic (commutative-ring scalars where noted), rounding is not modelled.")
 
 TEXT = {
- "C01": ("proof", "Theorems (Props/C01.v, any graph, any sharing/depth): the consumer-count driven engine computes exactly the adjoint "
-         "table of the topological sweep (C01_engine_is_sweep), and the stored leaf gradients satisfy the adjoint identity "
-         "<seed, forward tangent of the result> = sum over leaves <gradient, leaf tangent> (C01_reverse_equals_forward), given the local "
-         "transpose identity of each operation (proved per built-in closure in Props/C02.v; hypothesis for user closures). PARTIAL: the "
-         "instantiation of the abstract engine theorem at the concrete array engine needs a validity guard (rank-0 arrays cannot be added) "
-         "that is still being threaded through; matmul/unroll/expand/sigmoid local identities are not yet proved. Correspondence: exhaustive "
-         "small DAGs, random programs over every operation, README control flow, self-sum chains; corgi's gradients are compared with the "
-         "model and, independently, with the model's dual-number (forward-mode) evaluation.", "6 C01"),
- "C02": ("proof", "Theorems (Props/C02.v, commutative-ring scalars): for add, mul, div (arbitrary broadcasting, every flag combination), neg, scale, "
-         "powf with any exponent, ln, exp, reciprocal, sum(k), reshape, relu the delivered (flattened) deltas are the transpose-Jacobian of the "
-         "dual-number forward run applied to the seed. PARTIAL: matmul, unroll_blocks, expand_conv, sigmoid closures not yet proved at this level "
-         "(softmax/conv/sub/axpy are compositions). Correspondence: single-operation programs for every operation x parameterisation x shapes, "
-         "gradients compared with the model and with the dual-number directional derivative.", "6 C02"),
- "C03": ("proof", "Theorems (Props/C03.v): flatten_to (applied by the engine to every contribution) returns exactly the target dimensions and the sum of "
-         "the delta over the broadcast positions (commutative ring), it is the transpose of broadcasting, and in every successful pass all adjoints "
-         "and all stored gradients have their node's shape, for any graph and number of uses (engine level, shape-indexed monoid hypotheses). "
-         "Correspondence: every broadcast-compatible shape pair with the operand used 1-3 times, repeated passes; gradient dims and the summed "
-         "seed also evaluated directly on corgi's output.", "6 C03"),
+ "C01": ("proof", "Theorems (Props/C01.v abstract engine; Props/C01concrete.v concrete array engine over a commutative ring): the consumer-count driven depth-first engine computes exactly the adjoint table of the topological sweep, and for every store a program history can reach (store_good and value_consistent are invariants of all 27 instructions) the gradients stored on the leaves satisfy <seed, forward (dual-number) tangent of the result> = sum over leaves <gradient, leaf tangent>, for any sharing, depth and seed (C01_backward_exact); with unit tangents each gradient component is the seed-weighted partial derivative (C01_partial_derivatives). The local transpose identity of every built-in closure is proved (Props/C02*.v); `supported` is discharged for graphs over the ring closures (and div/ln/recip under the real-number division laws); PARTIAL: discharging it for matmul/unroll/expand/sigmoid/custom nodes inside C01concrete (identities proved, plumbing in progress), rank-1 matmul forms, and user closures (hypothesis by nature). Correspondence: exhaustive small DAGs, random programs over every operation, README control flow, self-sum chains; corgi's gradients are compared with the model and, independently, with the model's dual-number (forward-mode) evaluation.", "6 C01"),
+ "C02": ("proof", "Theorems (Props/C02.v, Props/C02more.v, commutative-ring scalars): for add, mul, div (arbitrary broadcasting, every flag combination), neg, scale, powf with ANY exponent, ln, exp, reciprocal, sum(k), reshape, relu, matmul (all flag pairs, leading broadcast, every additive-term form), unroll_blocks (summing roll: overlapping windows), expand_conv, sigmoid and the harness's user closures, the delivered (flattened) deltas are the transpose-Jacobian of the dual-number forward run applied to the seed; Props/C02real.v (Coq Reals + Coquelicot; axioms: the stdlib's real-number axioms and Classical_Prop.classic): the dual-number rules are the mathematical derivatives (is_derive) incl. non-integer exponents at positive base and integer exponents at negative base, relu away from 0 (not differentiable at 0: convention). Not covered: rank-1 matmul forms. Correspondence: single-operation programs for every operation x parameterisation x shapes; gradients vs model and vs the dual-number directional derivative.", "6 C02"),
+ "C03": ("proof", "Theorems (Props/C03.v, Props/C03hist.v): flatten_to (applied to every contribution) returns exactly the target dims and the sum of the delta over the broadcast positions, and is the transpose of broadcasting; in EVERY state reached by ANY program every stored gradient is well formed with exactly its array's dimensions (step_good for all 27 instructions; side condition: explicit seeds have the result's shape). Correspondence: every broadcast-compatible shape pair with the operand used 1-3 times, repeated passes; gradient dims and the summed seed also evaluated directly on corgi's output.", "6 C03"),
  "C04": ("proof", "Theorems (Props/C04.v, any scalar type, all shapes/values): result dimensions exist exactly for right-aligned compatible pairs and are the "
          "pairwise maximum; every element is f of the operands' elements at the broadcast-clamped index; incompatible pairs are refused; instances "
          "for add, sub, mul, div, axpy. Correspondence: all 120x120 shape pairs (rank<=4, dims<=3) x 5 operations plus random pairs.", "6 C04"),
@@ -52,9 +37,7 @@ TEXT = {
          "slots only on nodes reachable through tracked entries, stores plain values; adjoints exist exactly on that sub-graph; (with ProgramFacts) an "
          "operation result is tracked iff an operand is and an untracked result is childless. Correspondence: random flag histories over leaves, "
          "intermediates and clones, 1-3 passes, flag read-backs, Vec::from on operands of untracked results, matmul tracking masks.", "6 C09"),
- "C10": ("proof", "Theorems (Props/C10.v, engine level): a successful pass from a clean store ends clean with the same skeleton; passes are independent of earlier "
-         "passes; after any sequence of passes and clears every leaf holds the sum of the stand-alone adjoint tables since its last clear. Panicking "
-         "passes excluded. Correspondence: random histories; additivity is also evaluated on corgi's output alone (each pass re-run alone).", "6 C10"),
+ "C10": ("proof", "Theorems (Props/C10.v abstract; Props/C10concrete.v real array engine on store_good stores): a successful pass ends clean with the same skeleton; passes are independent of earlier passes; after any sequence of passes and clears every leaf holds the sum of the stand-alone adjoint tables since its last clear; the IBackward / IClearGrad instructions are exactly these store operations and other instructions only append. Panicking passes excluded. Correspondence: random histories; additivity also evaluated on corgi's output alone (each pass re-run alone).", "6 C10"),
  "C11": ("proof", "Theorems (Props/C11.v): the closure log of a pass has no duplicates, is exactly the reachable nodes with a closure, respects consumer-before-"
          "operand order (no algebra needed), and each closure receives the accumulation of all its consumers' contributions; consumer counts equal the "
          "tracked in-degree. Correspondence: all small DAGs of user closures, self-product chains of depth 40-60 (a blow-up shows as a timeout), mixed graphs.", "6 C11"),
@@ -65,27 +48,19 @@ TEXT = {
          "tracked node with values x - lr*g of its own gradient and no gradient, leaves frozen ones and all other nodes untouched; closed form; refuted "
          "without the gradient-length hypothesis (why C03 matters). Correspondence: 1-5 parameters, all gradient subsets, repeated updates; also checked "
          "against x - lr*g computed independently (bitwise).", "6 C13"),
- "C14": ("proof", "Theorems (Props/C14.v): composition of C13 (Model::update re-binds parameters to theta - lr*g with their own gradient and clears it), C10 (a pass "
-         "leaves no residue, so the next iteration starts clean) and C01 (g satisfies the adjoint identity). PARTIAL: the end-to-end induction over iterations "
-         "is stated per iteration, not as one closed theorem. Correspondence: random dense/conv models, 1-4 iterations; each parameter change is also compared "
-         "with -lr times a central-difference gradient of an independent Python reference loss at the observed parameters.", "6 C14"),
+ "C14": ("proof", 'Theorems (Props/C14.v): from a `ready` state (good store, parameters are distinct tracked leaves WITHOUT gradient) one forward/backward/update round returns the sum of the cost array of the current parameters and batch, re-binds every parameter to theta - lr*g where g is exactly the adjoint-table entry of the single pass on the cost node from an empty slot (the exact gradient by C01), and ends `ready` again; hence every iteration of any run starts and ends ready (no leak); doubled backward = both tables. Correspondence: random dense/conv models, 1-4 iterations; each parameter change also compared with -lr times a central-difference gradient of an independent Python reference loss at the observed parameters.', "6 C14"),
  "C15": ("proof", "Theorems (Props/C15.v): the dense layer value (x W^T + b, batched or single vector) and conv layer value, model_forward as the fold of the layers, "
          "the mse and cross-entropy element formulas and model_backward = sum of the cost array, from C04-C07. Correspondence: random models; forward values "
          "and loss also compared with a pure-Python evaluation of the documented formulas on the parameters corgi reports.", "6 C15"),
  "C16": ("proof", "Theorems (Props/C16.v, any scalar type): constructors succeed exactly on valid input with exactly the given dims and row-major values, nested "
          "construction stacks equal shapes, full in-range multi-index = row-major element, flat index, equality reads dims and values only. "
          "Correspondence: exhaustive shapes rank<=4 dims<=3, all indices, refusal stream, arr! literals.", "6 C16"),
- "C17": ("proof", "Theorems (Props/C17.v): the adjoint table and every leaf gradient are linear in the seed (for any combination the closures, flatten_to and "
-         "accumulation commute with); backward(None) is definitionally backward(ones). Correspondence: five fresh instances per random program (s1, s2, "
-         "combination, none, ones); the relation is evaluated on corgi's gradients alone.", "6 C17"),
+ "C17": ("proof", "Theorems (Props/C17.v abstract; Props/C17concrete.v): every built-in derivative closure, flatten_to and the accumulation commute with alpha*x+beta*y (BDiv under the named law that scalar division is linear in the numerator), hence the adjoint table and every leaf gradient of the real engine are linear in the seed; backward(None) is definitionally backward(ones). Correspondence: five fresh instances per random program (s1, s2, combination, none, ones); the relation is evaluated on corgi's gradients alone.", "6 C17"),
  "C18": ("proof", "Theorems (Props/C18.v, reachability model of Rc): holders form a DAG; the ownership count ignores gradient/delta/count cells (stored gradients never "
          "keep a graph alive) and is unchanged by passes; a leaf that is the only root (whatever was built and dropped before) is sole owner; fresh buffers never "
          "alias except through reshape. PARTIAL BY NATURE: what Rc and the allocator actually free is not in the model. Correspondence: random graphs, passes, "
          "fetched gradients, all derived handles dropped, Vec::from on every leaf (must succeed); model loop: previous input released after the next forward.", "6 C18"),
- "C19": ("proof", "Theorem (Props/C19.v): every forward operation, every derivative closure (and programs, as far as proved) is shape-parametric: for any two scalar "
-         "instances, result dims, panics and tracking depend only on operand dims and flags. NOT PROVED: agreement to within single-precision rounding (a per-program "
-         "floating-point error analysis is out of reach); validated by re-running samples of the C01-C07 programs against the --features f32 build with a "
-         "scaled tolerance - a test, labelled as such.", "6 C19"),
+ "C19": ("proof", 'Theorems (Props/C19.v): for ANY two scalar instances every forward operation, every derivative closure, the engine and every instruction of every program give the same dimensions, panic on exactly the same inputs and produce the same tracking flags and observation structure (run_rel, run_cast) - shapes, tracking and acceptance never depend on the float width. NOT PROVED (out of reach here): agreement of values to within single-precision rounding; that half is VALIDATED (a test, not a proof) by re-running samples of the C01-C07 programs against the --features f32 build with a scaled tolerance.', "6 C19"),
 }
 
 PENDING = "the Coq theorem file for this property is not yet registered in this commit (model and generator exist); it will be claimed in a later commit"
